@@ -266,3 +266,33 @@ func Shape(img []byte, u int, root int) *Tree {
 	rec(root, 1)
 	return t
 }
+
+// BtreePages gives the pages that are b-tree pages (interior or leaf) reachable
+// from the given roots; overflow, free-list and pointer-map pages are not in it.
+func BtreePages(img []byte, u int, roots []int) map[int]bool {
+	out := map[int]bool{}
+	var rec func(no, depth int)
+	rec = func(no, depth int) {
+		if no < 1 || out[no] || depth > 40 {
+			return
+		}
+		p := Parse(img, u, no)
+		if !p.Valid {
+			return
+		}
+		switch p.Type {
+		case 0x0d, 0x0a:
+			out[no] = true
+		case 0x05, 0x02:
+			out[no] = true
+			for _, c := range p.Cells {
+				rec(c.Left, depth+1)
+			}
+			rec(p.Right, depth+1)
+		}
+	}
+	for _, r := range roots {
+		rec(r, 1)
+	}
+	return out
+}
